@@ -314,6 +314,7 @@ class Body:
             self.blocks.append([stmts, Term(term), False])
         self._local_name = None
         self._cache = {}
+        self._raw = o
 
     @property
     def name(self):
@@ -373,6 +374,7 @@ class Program:
         self.adts = {}          # adt id -> record
         self.consts = {}        # def id -> int
         self.crates = {}
+        self._raws = {}
         seen_crates = set()
         files = sorted(glob.glob(os.path.join(facts_dir, "*.jsonl")))
         if not files:
@@ -391,7 +393,25 @@ class Program:
             self._load(f, cname, ckind == "bin")
         for d in self.defs.values():
             self.by_name[d.name].append(d)
+        # functions that are new relative to the reference tree (extracted helpers) are inlined at their call sites
+        from . import inline
+        self.inlined = inline.run(self, self._raws, self._make_body)
+        self._raws = None
         self._link()
+
+    def _make_body(self, o, remap, types):
+        b = Body(o, self, remap, types)
+        for blk in b.blocks:
+            t = blk[1]
+            if t.kind == "call":
+                c = t.call
+                if c.f is not None:
+                    c.decl = remap[c.f]
+                    c.callee = remap[c.r] if c.r is not None else c.decl
+                c.cls = [remap[x] for x in c.cls]
+        # remap def references inside constants / aggregates lazily: keep table
+        b._remap = remap
+        return b
 
     # ------------------------------------------------------------------ load
     def _load(self, path, cname, is_bin):
@@ -434,18 +454,9 @@ class Program:
                         if "root" in r and d.root is None:
                             d.root = remap[r["root"]]
                 elif k == "body":
-                    b = Body(o, self, remap, types)
-                    for blk in b.blocks:
-                        t = blk[1]
-                        if t.kind == "call":
-                            c = t.call
-                            if c.f is not None:
-                                c.decl = remap[c.f]
-                                c.callee = remap[c.r] if c.r is not None else c.decl
-                            c.cls = [remap[x] for x in c.cls]
-                    # remap def references inside constants / aggregates lazily: keep table
-                    b._remap = remap
+                    b = self._make_body(o, remap, types)
                     self.bodies[b.d.id] = b
+                    self._raws[b.d.id] = (o, remap, types)
                     nbodies += 1
                 elif k == "impl":
                     rec = {
